@@ -89,7 +89,7 @@ class C12:
         return _strategy()
 
     def examples(self, tier):
-        return 6000 if tier == "quick" else 120000
+        return 6000 if tier == "quick" else 360000
 
     def enumerate(self, tier):
         return []
